@@ -654,13 +654,27 @@ class C18(Spec):
                   'C18_collect_preserves_reachable — GC_Mark;GC_Sweep (the marker of Cello/Heap.lean, proved complete in C01, run on what each '
                   'Mark instance presents) keeps every block reachable through what the containers HOLD; C18_mark_covers_container — every Mark '
                   'instance covers everything its container holds, stated over the loop bound of Table_Mark and the Mark texts regenerated from '
-                  '/repo (C18_mark_functions_as_modelled), so a Mark function that skips slots or items breaks the build of the theorems.')
+                  '/repo (C18_mark_functions_as_modelled), so a Mark function that skips slots or items breaks the build of the theorems. '
+                  'Guards over the allocation class: every `if (cond) throw` inside #if CELLO_*_CHECK is regenerated as a term (CelloGen.Cfg.guards: '
+                  'function, macro, condition as GExpr over header(self)->alloc, exception) together with the class every header_init site stamps '
+                  '(stamps) and the enum values; the model evaluates exactly these terms on the header class of the object each guarded function '
+                  'runs on (the handle`s own object, or an element embedded in an Array/List/Table/Tree reached through get or iteration). '
+                  'C18_alloc_guards_false_in_contract: every CELLO_ALLOC_CHECK guard of the source is false on every class on which its function is '
+                  'defined (alloc_by objects AND embedded elements for String_*/Tuple_*; alloc_by objects for dealloc) - that is what makes the '
+                  'check removable; C18_alloc_guards_classify: over all four classes the guards of a function fire exactly where it is undefined '
+                  'without them; C18_edit_never_refused_for_its_class: no in-place edit is refused for where its target lives, in any build.')
     level_note = ('PARTIAL by nature: the compiler is not modelled; optimisation levels and the real effect of the switches on the C code are '
                   'covered by the differential build matrix (testing). Trusted: Lean kernel; translate/g_cfg.py (text-level extraction); '
                   'the harness/driver/transcript comparison; clang, libc.')
     rule = ('workloads: op files of 250-600 public-API operations over <=48 objects (Int, String, Array, List, Table, Tree, heap Tuple; push/pop/insert/'
             'remove/get/set/mem/len/sort/copy/concat/resize/compare, map set/get/rem/mem, iteration both ways, caught and nested '
-            'exceptions; transcript-only: hash, show, print_to formats, Float, range/slice/reverse/enumerate/zip/filter/map views, forced '
+            'exceptions; value objects made by new / new_raw / new_root; `ed x SEL EDIT`: in-place edits (concat, append, resize up and down, assign, '
+            'print_to at a position, rem, look_from = String_Clear + String_Concat per character) applied to the object itself, to an element of an Array / '
+            'List reached by get or by iteration, to a value of a Table / Tree reached by get, to a key reached by iteration (value-preserving edits only) - '
+            'i.e. on every allocation class the functions are defined on (AllocHeap and AllocData; modelled, O lines); '
+            'transcript-only: nested holders `x…` (Array / List / Table / Tree whose elements are Arrays of Int, Lists of Int or Tuples of built-in Type '
+            'objects, embedded in the outer storage and edited in place through get(): push, pop, pop_at, set, concat, resize, rem of the inner object), '
+            'hash, show, print_to formats, Float, range/slice/reverse/enumerate/zip/filter/map views, forced '
             'collections, heap Tuples whose items only the Tuple references, probe types implementing 17 of the 18 cached classes queried in '
             'random orders cold and warm, dropped rings of Boxes owning each other followed by allocation churn; keep programs `h…`: holders of nine kinds — Array/List '
             'of Ref, Table and Tree with the pointer in the value (Int->Ref) or in the key (KCell->Int), heap Tuple, Ref/Box chain through the last word of a '
@@ -668,7 +682,9 @@ class C18(Spec):
             'count, colliding keys, rehash by resize), put under allocation pressure and forced collections, every element read back (serial, payload, type) '
             'after removals with and without del, shrinking and clearing; a destructor ledger audited after every operation: no stored object finalised, none '
             'twice, del finalises at once), seven profiles (mixed, sequences, maps with colliding keys, '
-            'allocation churn with dropped objects, views, tuples, keep; every case starts with one directed keep scenario, the nine kinds in rotation), ~2% '
+            'allocation churn with dropped objects, views, tuples, keep, edits; every case starts with one directed keep scenario (the nine kinds in rotation), '
+            'one directed edit scenario (a String made by new / new_raw / new_root in rotation, a String Array or List, a String Table or Tree, every selector '
+            'twice) and one nested holder (outer x inner kinds in rotation)), ~2% '
             'deliberately out-of-contract operations that every build and the model must refuse identically. Each file runs on the default '
             'build + Lean driver (O lines compared) and on every build of the matrix (O and T lines compared byte for byte with the default '
             'build). non-trivial item = an operation that was in contract and executed (not refused); distinct = distinct (operation text, '
@@ -681,6 +697,8 @@ class C18(Spec):
     assumptions = ('in-contract programs only: every operation is validated against the harness shadow first; bad index, absent key, wrong element type, dead handle are refused before the call',
                    'known-finding territory avoided: Table/Tree equality and hashing (F06), Slice with stop/step (F11), Zip backward (F12), repeated pointers in Tuples (F13), del while the collector is stopped (F23), Box elements (F28), print_to error paths (F29)',
                    'single thread; no allocation failure; String values <= 30 bytes, containers <= 120 elements',
+                   'in-place edits: text [0-9A-Za-z_]*, results <= 30 bytes, print_to position within the text; keys of a Table/Tree are only rewritten with their own value (anything else breaks the map and is out of contract); stack and static Strings are never edited (not defined: their buffer is not a malloc block; that the guards fire there is theorem C18_alloc_guards_classify, the behaviour itself belongs to C12/C19)',
+                   'nested holders: <= 8 holders x 12 inner objects x 24 items; embedded Tuples hold built-in Type objects only (static, never freed: known finding KF-C01-dangling-tuple-item avoided) and no object twice (F13); inner containers only shrink by resize',
                    'keep programs: non-negative Int keys <= 10^6, no overwriting of an existing key, at most 8 holders x 120 elements, each Tracked object stored in exactly one place (no sharing, no cycles), Box only as a chain link (F28); released objects are never required to be collected (conservative stack scan)',
                    'optimisation levels are compared on the generated workloads, not proved')
     def __init__(self):
@@ -745,6 +763,20 @@ class C18(Spec):
         if m:
             for k, g in (('impl_keep_ops', 1), ('impl_keep_reads', 2), ('impl_keep_high_slot_entries_read', 3), ('impl_tracked_objects', 4)):
                 acc[k] = acc.get(k, 0) + int(m.group(g))
+        m = re.search(r' edits=(\d+) elem-edits=(\d+) nested-ops=(\d+)', c_out)
+        if m:
+            for k, g in (('impl_inplace_edits', 1), ('impl_inplace_edits_on_embedded_elements', 2), ('impl_nested_holder_ops', 3)):
+                acc[k] = acc.get(k, 0) + int(m.group(g))
+        m = re.search(r' edits=(\d+) elem-edits=(\d+)', m_out)
+        if m:
+            for k, g in (('model_inplace_edits', 1), ('model_inplace_edits_on_embedded_elements', 2)):
+                acc[k] = acc.get(k, 0) + int(m.group(g))
+        # which selector / edit pairs were executed (the class of c18_f: an edit on an object that is not a plain heap object)
+        for l in case.lines:
+            t = l.split(' ')
+            if t[0] == 'ed' and len(t) > 4:
+                sel = t[2]; ed = t[3] if sel == 'self' else t[4]
+                k = f'ed_{sel}_{ed}'; acc[k] = acc.get(k, 0) + 1
     # ---------------------------------------------------------------- the build matrix
     def model_selfcheck(self, case, m_out):
         if 'O model-config-divergence' in m_out:
